@@ -31,6 +31,37 @@ def plan(tier, seed):
     return [{"kind": "suite"}] + [{"n": N[tier]} for _ in range(16)] + [{"kind": "threads", "k": k} for k in range(3 if tier == "quick" else 16)]
 
 
+def digest_twin_strings(ctx) -> None:
+    """Two different OBIS strings with the same CRC-32 (birthday search), parsed one after the other: each gives its own groups."""
+    from han import obis
+
+    from vf.gen import collide
+
+    rng = ctx.rng(ID, "digest-twins")
+    for syntax in ("reduced", "dotted"):
+        table = {}
+
+        def make(i):
+            r = rng.getrandbits(48)
+            g = tuple((r >> (8 * k)) & 0xFF for k in range(6))
+            text = obis_ref.reduced(g) if syntax == "reduced" else obis_ref.dotted(g[:5]) + "." + str(g[5])
+            table[i] = (g, text)
+            return text.encode()
+
+        pair = collide.birthday(make, limit=400_000)
+        if pair is None:
+            ctx.count("digest_twin_not_available")
+            continue
+        ctx.count("digest_colliding_string_pairs")
+        for i in (pair[0], pair[1], pair[0]):
+            g, text = table[i]
+            check_wellformed(g, text, ctx, syntax)
+            o = obis.Obis.from_string(text)
+            if tuple(o.as_tupple()) != g or not (o == text) or (o == table[pair[1] if i == pair[0] else pair[0]][1]):
+                ctx.violation(f"C20:{syntax}:digest-colliding-strings", f"{text!r} parsed right after {table[pair[0]][1]!r} / {table[pair[1]][1]!r} (same CRC-32): groups {o.as_tupple()!r}, written {g!r}", {"text": text, "groups": list(g), "syntax": syntax})
+        ctx.case("twins" + syntax, True, 3)
+
+
 def run_threads(shard, ctx) -> None:
     """Parsing is a function of the string: several threads parsing different codes at once (first parses of a fresh interpreter)
     each get the groups of their own string."""
@@ -252,6 +283,8 @@ def run(shard, ctx):
         suite.run_suite(ctx, "C20")
         return
     if shard.get("kind") == "threads":
+        if shard.get("k") == 0:
+            digest_twin_strings(ctx)
         return run_threads(shard, ctx)
     rng = ctx.rng(ID)
     patterns = list(itertools.product((False, True), repeat=4))
